@@ -340,6 +340,27 @@ def path_uniformity(SA):
             except AnalysisError:
                 continue
             groups.setdefault((v.clamp_state(), v.shifted()), []).append(v)
+        if key[0]:
+            # footprint mode: a tower at the grid origin is no special case - the footprint is shifted by the tower position
+            # plus the padded halo width wherever the tower stands - so a path taken only for the origin must give what the
+            # general path gives at xm = ym = 0
+            origin = {atom_of(S.xm): ZERO, atom_of(S.ym): ZERO}
+            for (clamp, sh), vs in groups.items():
+                if sh:
+                    continue
+                gen = groups.get((clamp, True))
+                if not gen:
+                    continue
+                for w in vs:
+                    for nm in ("conc", "flx"):
+                        a, b = gen[0].coeff(nm), w.coeff(nm)
+                        if isinstance(a, Expr) and isinstance(b, Expr):
+                            try:
+                                a0 = a.expand().subs(origin)
+                            except ZeroDivisionError:
+                                continue
+                            obs.append(eq_ob("R-PATHS", "src/bldfm/solver.py::steady_state_transport_solver (footprint=True analytic=%s %s mode, halo %s)" % (key[1], key[2], key[3]),
+                                             "a path taken only for a tower at the grid origin returns what the general path returns there (%s, clamp %s)" % (nm, clamp), b, a0, key={"clause": "origin", "out": nm}))
         for gk, vs in groups.items():
             if len(vs) < 2 or not any(getattr(w.r, "_used", False) for w in vs):
                 continue
